@@ -1201,7 +1201,27 @@ def c12_closed(rp):
 
 
 def _rand_pred(rnd, sizes):
-    return [[[enc(rnd.uniform(0, 50)), enc(rnd.choice([0.0, 0.5, 3.0, 8.0]))] for _ in range(n)] for n in sizes]
+    gm = [[[rnd.uniform(0, 50), rnd.choice([0.0, 0.5, 3.0, 8.0])] for _ in range(n)] for n in sizes]
+    # partial coincidences between two teams (a cache or lookup keyed by part of the data shows only
+    # then): the same mus with other sigmas, the same sigmas with other mus, the same total mu
+    mode = rnd.random()
+    if len(sizes) > 1 and mode < 0.45:
+        i, j = rnd.sample(range(len(sizes)), 2)
+        if sizes[i] == sizes[j]:
+            for k in range(sizes[i]):
+                if mode < 0.2:
+                    gm[i][k][0] = gm[j][k][0]
+                    if gm[i][k][1] == gm[j][k][1]:
+                        gm[i][k][1] = gm[j][k][1] + 1.5
+                elif mode < 0.35:
+                    gm[i][k][1] = gm[j][k][1]
+        if mode >= 0.35:
+            # equal totals, different members
+            ti, tj = sum(p[0] for p in gm[i]), sum(p[0] for p in gm[j])
+            gm[i][0][0] += tj - ti
+            if abs(sum(p[0] for p in gm[i]) - tj) > 0 or all(a[1] == b[1] for a, b in zip(gm[i], gm[j])):
+                gm[i][0][1] += 1.25
+    return [[[enc(mu), enc(sg)] for (mu, sg) in t] for t in gm]
 
 
 @searcher("c12_closed")
